@@ -315,7 +315,7 @@ func (u *Unit) beBytesSeq(st *State, v *Term, n int) SliceV {
 		bytes[i] = r
 		cur = q
 	}
-	r := u.virtRegion(st, MkArr(func(j *Term) *Term {
+	r := u.virtRegion(st, u.mkArr(func(j *Term) *Term {
 		res := bytes[n-1]
 		for i := n - 2; i >= 0; i-- {
 			res = Ite(Eq(j, IntLit(int64(i))), bytes[i], res)
@@ -360,7 +360,7 @@ func (u *Unit) intrinsic(st *State, fr *Frame, in *ssa.Call, fn *ssa.Function, a
 			segs = append(segs, seg{a, u.name(o, "co"), pos, end})
 			pos = end
 		}
-		r := u.virtRegion(st, MkArr(func(j *Term) *Term {
+		r := u.virtRegion(st, u.mkArr(func(j *Term) *Term {
 			body := IntLit(0)
 			for i := len(segs) - 1; i >= 0; i-- {
 				s := segs[i]
